@@ -94,6 +94,7 @@ pub fn build_live(family: &str, rng: &mut Rng, tier: u32) -> Option<LiveBuilt> {
         "park" => Some(live_park::build(rng, tier)),
         "condvar_live" => Some(live_condvar::build(rng, tier)),
         "cqueue" => Some(live_cqueue::build(rng, tier)),
+        "cqueue_co" => Some(live_cqueue::build_co(rng, tier)),
         "local" => Some(live_local::build(rng, tier)),
         "blocker" => Some(live_park::build_blocker(rng, tier)),
         "park_sleepers" => Some(live_park::build_sleepers(rng, tier)),
